@@ -76,6 +76,19 @@ theorem C25_exec_surface (pty : Bool) (term : Bytes) (m : Meta) :
       | false => simp at h
     · exact Or.inl h
 
+/-- A configured password hash that no password satisfies (in particular a string that is not a
+    well-formed bcrypt hash: bcrypt.CompareHashAndPassword returns an error for every password)
+    admits nothing.  The `reseth` scripts pin that the real ValidateAuth refuses for each class of
+    malformed hash (too short, plain text, unknown version, cost out of range, bad salt characters,
+    truncated, trailing garbage) and for a well-formed hash of another password. -/
+theorem C25_bad_hash_admits_nothing (pwOK : Bytes → Bytes → Bool) (c : Cfg) (m : Meta) (n : Int)
+    (hh : c.hash ≠ []) (hbad : ∀ p, pwOK c.hash p = false) :
+    (validateAndAcquire pwOK c m n).1 ≠ .ok := by
+  intro h
+  rcases (C25_start_implies pwOK c m n h).2.1 with h0 | ⟨_, h1⟩
+  · exact hh h0
+  · rw [hbad] at h1; cases h1
+
 /-- A refused request leaves the counter alone. -/
 theorem C25_reject_keeps_counter (pwOK : Bytes → Bytes → Bool) (c : Cfg) (m : Meta) (n : Int)
     (h : (validateAndAcquire pwOK c m n).1 ≠ .ok) : (validateAndAcquire pwOK c m n).2 = n := by
